@@ -1,6 +1,7 @@
 import LC.Props.C02
 import LC.Props.C02Words
 import LC.Props.C02Bounds
+import LC.Props.C02Runes
 #print axioms LC.Score.lev_le_levWord
 #print axioms LC.Score.score_bound
 #print axioms LC.Score.lev_eq_zero_iff
@@ -17,3 +18,10 @@ import LC.Props.C02Bounds
 #print axioms LC.Score.src_eq_dst_of_all_eq
 #print axioms LC.Score.conf_one_of_all_equal
 #print axioms LC.Score.conf_one_iff_identical
+#print axioms LC.TokenRune.runeToken_tokenRune
+#print axioms LC.TokenRune.tokenRune_not_surrogate
+#print axioms LC.TokenRune.tokenRune_valid
+#print axioms LC.TokenRune.tokenRune_injective
+#print axioms LC.TokenRune.throughString_tokenRune
+#print axioms LC.TokenRune.roundtrip_distinct
+#print axioms LC.TokenRune.old_encoding_collides
